@@ -29,10 +29,10 @@ CLAIMED = {
              "Instance/Type incl. lazily resolved class names, Callable, Either/Union incl. nested and Python-only "
              "alternatives) x 60 value classes (bool/int/float subclasses, numpy scalars, __index__/__float__/"
              "__complex__ objects incl. raising ones, NaN/inf/-0.0, huge ints, None, text, tuples, lists, classes, "
-             "instances) x 4 assignment routes. Session 4: Array / CArray / ArrayOrNone (ArrayTrait.tla: 8 dtypes x 12 shape patterns x 3-5 casting rules x ~160 numpy arrays, nested lists/tuples, ragged and non-sequence values; the documented default zeros(min(shape)); numpy's casting rules checked as an environment assumption) and This/self, Module, Date, Datetime, Time, UUID, File, Directory, Expression (MoreTypes.tla) are now part of this check; This and Complex also as Tuple members / compound alternatives.",
+             "instances) x 4 assignment routes. Session 4: Array / CArray / ArrayOrNone (ArrayTrait.tla: 8 dtypes x 12 shape patterns x 3-5 casting rules x ~160 numpy arrays, nested lists/tuples, ragged and non-sequence values; the documented default zeros(min(shape)); numpy's casting rules checked as an environment assumption) and This/self, Module, Date, Datetime, Time, UUID, File, Directory, Expression (MoreTypes.tla) are now part of this check; This and Complex also as Tuple members / compound alternatives. DynRange.tla / DynEnum.tla: Range and Enum traits whose bounds / members name other attributes (histories of bound changes, assignments and reads).",
         note="Trusted: TLC; one concrete representative per value class (several for arrays: dtype x shape x contents); numpy's "
              "can_cast / asarray rules are an environment assumption checked against the installed numpy; List/Dict/Set element "
-             "validation is C04's subject; WeakRef, String variants (Regex, Code, HTML, Password) and dynamic Enum are outside.",
+             "validation is C04's subject; WeakRef and the String variants (Regex, Code, HTML, Password) are outside.",
         design="4/C01"),
     "C03": dict(
         technique=TLA + "the transcriptions Fast and Py of Validate.tla are compared by TLC for every (configuration, "
